@@ -274,3 +274,85 @@ def _canon_expr(v, init):
     if isinstance(v, ast.Name):
         return None  # raw parameter / local: not decided
     return None
+
+
+# --------------------------------------------------------------------------- R08.5
+def r08_5(ctx, m, subs):
+    """Equal descriptions given in different representations (scalar vs per-axis tuple ...) must produce bit-identical hash-key
+    values: the branches of a constructor that compute one hash attribute from the same inputs use the same floating-point
+    expression (algebraically equal forms such as 1/(a*b) and 1/a/b differ in the last bit)."""
+    ctx.rule("R08.5", "branches of a domain constructor that compute a hash-key attribute from the same inputs use the same arithmetic "
+                      "expression (so equal descriptions in different representations hash and compare equal bit for bit)", floor=1)
+    for c in subs:
+        r = m.resolve_attr(c, "_needed_for_hash")
+        if r is None or r[0] != "value" or not isinstance(r[1][1], (ast.List, ast.Tuple)):
+            continue
+        attrs = [e.value for e in r[1][1].elts if isinstance(e, ast.Constant)]
+        init = c.methods.get("__init__")
+        if init is None:
+            continue
+        params = init.params()[1:]
+        # names derived from a parameter (one step: x = f(param) / x[:] = param)
+        root = {p: p for p in params}
+        for st in walk_no_nested(init.node):
+            if isinstance(st, ast.Assign):
+                srcs_ = {n.id for n in ast.walk(st.value) if isinstance(n, ast.Name) and n.id in root}
+                for t in st.targets:
+                    base = t.value if isinstance(t, ast.Subscript) else t
+                    if isinstance(base, ast.Name) and len(srcs_) == 1 and base.id not in params:
+                        root[base.id] = root[next(iter(srcs_))]
+                    if isinstance(base, ast.Attribute) and isinstance(base.value, ast.Name) and base.value.id == "self" and len(srcs_) == 1:
+                        root["self." + base.attr] = root[next(iter(srcs_))]
+
+        def skel(e):
+            """(skeleton text, frozenset of leaf roots)"""
+            if isinstance(e, ast.Call) and call_name(e) in ("tuple", "float", "array", "asarray", "int") and len(e.args) == 1:
+                return skel(e.args[0])
+            if isinstance(e, ast.BinOp) and isinstance(e.op, ast.Mult) and isinstance(e.left, (ast.Tuple, ast.List)):
+                return "<sequence repetition>", frozenset(["?"])
+            if isinstance(e, ast.BinOp) and isinstance(e.op, (ast.Mult, ast.Div, ast.Add, ast.Sub, ast.Pow)):
+                l, ll = skel(e.left)
+                r_, rl = skel(e.right)
+                op = {ast.Mult: "*", ast.Div: "/", ast.Add: "+", ast.Sub: "-", ast.Pow: "**"}[type(e.op)]
+                return f"({l} {op} {r_})", ll | rl
+            if isinstance(e, ast.Constant):
+                return repr(float(e.value)) if isinstance(e.value, (int, float)) else repr(e.value), frozenset()
+            names = {n.id for n in ast.walk(e) if isinstance(n, ast.Name)} | \
+                {"self." + n.attr for n in ast.walk(e) if isinstance(n, ast.Attribute) and isinstance(n.value, ast.Name) and n.value.id == "self"}
+            roots = {root[n] for n in names if n in root}
+            if len(roots) == 1:
+                rt = next(iter(roots))
+                return f"<{rt}>", frozenset([rt])
+            return "<?>", frozenset(["?"])
+        for a in attrs:
+            forms = {}
+            stmts = []
+            for st in walk_no_nested(init.node):
+                if isinstance(st, ast.Assign) and any(is_self_attr(t, a) for t in st.targets):
+                    v = st.value
+                    # inline a directly preceding temporary: self._a = tuple(temp) with temp = <arith>
+                    inner = v.args[0] if isinstance(v, ast.Call) and call_name(v) == "tuple" and len(v.args) == 1 else v
+                    if isinstance(inner, ast.Name):
+                        defs = [s2 for s2 in walk_no_nested(init.node) if isinstance(s2, ast.Assign) and isinstance(s2.targets[0], ast.Name)
+                                and s2.targets[0].id == inner.id and isinstance(s2.value, ast.BinOp)]
+                        if len(defs) == 1:
+                            v = defs[0].value
+                    sk, leaves = skel(v)
+                    if "(" in sk and "?" not in leaves and len(leaves) >= 2:
+                        forms.setdefault(leaves, set()).add(sk)
+                        stmts.append(st)
+            for leaves, sks in forms.items():
+                key = f"{c.key}::{a} computed from {sorted(leaves)}: one floating-point expression in all branches"
+                ctx.check("R08.5", key, len(sks) == 1,
+                          f"branches use different expressions {sorted(sks)}: algebraically equal but not bit-identical, so the same "
+                          "description given as a scalar and as a tuple yields unequal domains", init, stmts[0] if stmts else None)
+
+
+_run_c08 = run
+
+
+def run(ctx):  # noqa: F811
+    _run_c08(ctx)
+    m = ctx.model
+    Dom = m.cls(*DOM)
+    r08_5(ctx, m, [c for c in m.subclasses(Dom) if not c.local])
